@@ -49,16 +49,37 @@ func genLayouts(seed int64, nRand int) []lib.GenAsset {
 }
 
 // randOptions draws a legitimate combination of URL options that shape the MPD, always with patch_<ttl>.
-func randOptions(rng *rand.Rand) (opts string, ttl int) {
+// grid >= 0 selects one cell of the pairwise grid addressing mode (3) x periods (2) x start (2) x stop (2); -1 draws freely.
+func randOptions(rng *rand.Rand, ttl int, t0 int64, grid int) (opts string) {
 	pick := func(l ...string) string { return l[rng.Intn(len(l))] }
-	ttl = []int{10, 20, 30, 60}[rng.Intn(4)]
 	parts := []string{fmt.Sprintf("patch_%d", ttl)}
-	switch rng.Intn(8) {
-	case 0: // no SegmentTimeline: only publishTime-independent content
+	mode := rng.Intn(8)
+	if grid >= 0 {
+		mode = []int{0, 1, 4}[grid%3]
+	}
+	switch mode {
+	case 0: // plain $Number$ template: the MPD changes only at Period boundaries / start / stop
 	case 1, 2, 3:
 		parts = append(parts, "segtimelinenr_1")
 	default:
 		parts = append(parts, "segtimeline_1")
+	}
+	withPeriods := rng.Float64() < 0.3
+	withStart := rng.Float64() < 0.2
+	withStop := rng.Float64() < 0.12
+	if grid >= 0 {
+		withPeriods, withStart, withStop = (grid/3)%2 == 1, (grid/6)%2 == 1, (grid/12)%2 == 1
+	}
+	if withStart && t0 > 20000 {
+		// availabilityStartTime a little before the first request
+		parts = append(parts, fmt.Sprintf("start_%d", t0/1000-5-rng.Int63n(min(600, t0/1000-6))))
+	}
+	if withStop {
+		// the stream stops during the history
+		parts = append(parts, fmt.Sprintf("stop_%d", t0/1000+3+rng.Int63n(25)))
+	}
+	if rng.Float64() < 0.1 {
+		parts = append(parts, pick("timeoffset_3", "timeoffset_-2.5", "timeoffset_0.5"))
 	}
 	maybe := func(p float64, s ...string) {
 		if rng.Float64() < p {
@@ -68,7 +89,7 @@ func randOptions(rng *rand.Rand) (opts string, ttl int) {
 	maybe(0.5, "utc_none", "utc_keep", "utc_direct", "utc_head", "utc_ntp", "utc_sntp", "utc_httpxsdate", "utc_httpxsdatems",
 		"utc_httpiso", "utc_httpisoms", "utc_direct-head", "utc_none-direct", "utc_httpiso-ntp")
 	maybe(0.35, "tsbd_10", "tsbd_20", "tsbd_25", "tsbd_45", "tsbd_90")
-	if rng.Float64() < 0.3 {
+	if withPeriods {
 		parts = append(parts, pick("periods_30", "periods_60", "periods_120", "periods_360"))
 		maybe(0.4, "continuous_1")
 	}
@@ -81,7 +102,19 @@ func randOptions(rng *rand.Rand) (opts string, ttl int) {
 	maybe(0.15, "ltgt_2500", "ato_1/ltgt_3000", "ato_1.5")
 	maybe(0.1, "dur_3600", "init_5", "segtimelineloss_1")
 	rng.Shuffle(len(parts)-1, func(i, j int) { parts[i+1], parts[j+1] = parts[j+1], parts[i+1] })
-	return strings.Join(parts, "/"), ttl
+	return strings.Join(parts, "/")
+}
+
+// seqTimesAt: polling instants from t0 on.
+func seqTimesAt(rng *rand.Rand, t0 int64, ttl int, n int) []int64 {
+	step := []int64{400, 1000, 1500, 2000, 3000}[rng.Intn(5)]
+	times := []int64{t0}
+	t := t0
+	for k := 0; k < n; k++ {
+		t += step/2 + rng.Int63n(step)
+		times = append(times, t)
+	}
+	return times
 }
 
 // seqTimes draws the polling instants of one history.
@@ -163,9 +196,9 @@ func runSeq(c *lib.Ctx, ls *lib.Livesim, id string, in c11in) (st seqStats) {
 }
 
 func runSeqStage(c *lib.Ctx, rng *rand.Rand, ls *lib.Livesim, nextID *int, distinct map[string]bool, treeTerms *[]func() string) error {
-	nBundled, nGen, nRand, polls, modelBudget := 44, 36, 4, 10, 50
+	nBundled, nGen, nRand, polls, modelBudget, nGrid := 44, 36, 4, 10, 50, 1
 	if c.Thorough() {
-		nBundled, nGen, nRand, polls, modelBudget = 400, 360, 30, 16, 300
+		nBundled, nGen, nRand, polls, modelBudget, nGrid = 400, 360, 30, 16, 300, 8
 	}
 	layouts := genLayouts(c.Seed, nRand)
 	_, gls, cleanup, err := lib.GenSetup("c11", layouts)
@@ -176,9 +209,14 @@ func runSeqStage(c *lib.Ctx, rng *rand.Rand, ls *lib.Livesim, nextID *int, disti
 	mpds := bundledMPDs()
 	silenceStderr()
 	defer restoreStderr()
-	one := func(srv *lib.Livesim, asset string, gen bool, dense bool) {
-		opts, ttl := randOptions(rng)
+	one := func(srv *lib.Livesim, asset string, gen bool, dense bool, grid int) {
+		ttl := []int{10, 20, 30, 60}[rng.Intn(4)]
 		times := seqTimes(rng, ttl, polls)
+		if grid >= 0 && (grid/3)%2 == 1 {
+			// with periods: start shortly before a Period boundary (whole minutes are boundaries for every periods_N used)
+			times = seqTimesAt(rng, 60000*(1+rng.Int63n(28000000))-1000-rng.Int63n(4000), ttl, polls)
+		}
+		opts := randOptions(rng, ttl, times[0], grid)
 		if dense {
 			// a client that polls about once a second for longer than any loop of the small assets
 			times = times[:1]
@@ -212,10 +250,17 @@ func runSeqStage(c *lib.Ctx, rng *rand.Rand, ls *lib.Livesim, nextID *int, disti
 		}
 	}
 	for i := 0; i < nBundled; i++ {
-		one(ls, mpds[i%len(mpds)], false, i < len(mpds))
+		one(ls, mpds[i%len(mpds)], false, i < len(mpds), -1)
 	}
 	for i := 0; i < nGen; i++ {
-		one(gls, layouts[i%len(layouts)].Name+"/Manifest.mpd", true, i%3 == 0)
+		one(gls, layouts[i%len(layouts)].Name+"/Manifest.mpd", true, i%3 == 0, -1)
+	}
+	// the pairwise grid addressing mode x periods x start x stop, on the plain bundled assets
+	gridAssets := []string{"testpic_2s/Manifest.mpd", "testpic_8s/Manifest.mpd", "testpic_alt_seg_dur_stl/Manifest.mpd"}
+	for rep := 0; rep < nGrid; rep++ {
+		for g := 0; g < 24; g++ {
+			one(ls, gridAssets[(g+rep)%len(gridAssets)], false, (g+rep)%4 == 0, g)
+		}
 	}
 	return nil
 }
